@@ -357,6 +357,10 @@ PROPS["C07"].setdefault("per_family", {})["ledger"] = {"nt": "LG_C07", "mc_cfg":
 PROPS["C06"]["families"] = [PROPS["C06"].pop("family"), "src"]
 PROPS["C06"]["formulas"] = PROPS["C06"]["formulas"] + ["C06_TimeSource"]
 PROPS["C06"].setdefault("per_family", {})["src"] = {"nt": "C06src", "pair": False, "bug_variants": []}
+PROPS["C06"]["technique"] = ("TLA+ spec (family chain, pair mode) + TLC trace validation of two independent real executions of the same history (2-safety "
+                             "equality formula C06_Same); plus family src: Go AST scan of the module sources for wall-clock / process-global randomness "
+                             "references, logged as a trace and validated by TLC (C06_TimeSource) - the assumption under which double execution is meaningful")
+PROPS["C06"]["assumptions"] = PROPS["C06"]["assumptions"] + ["the source scan is syntactic: it sees direct references in the scanned directories (x/, wasmbinding/, types/, app/ without client, simulation, upgrades), not references hidden in dependencies"]
 # C17 at whole-application level (creators in lower- and upper-case spellings, all modules interleaved)
 PROPS["C17"]["families"] = [PROPS["C17"].pop("family"), "ledger"]
 PROPS["C17"]["formulas"] = PROPS["C17"]["formulas"] + ["LG_Files"]
